@@ -6,7 +6,8 @@ def check(ctx):
     for name in NAMES:
         def per(A, R, tr, name=name):
             check_grid(A, R, prefix=tr)
-            if name != "new_ltf_plan": check_bmin_guard(A, R, prefix=tr)
+            if name == "vectorized_ltf_plan": check_bmin_mask(A, R, prefix=tr)
+            elif name != "new_ltf_plan": check_bmin_guard(A, R, prefix=tr)
         for_paths(ctx, ctx.repo, name, per)
     check_lpsd_wrapper(ctx, ctx.repo)
     check_rounding_helper(ctx, ctx.repo)
